@@ -16,7 +16,8 @@ func init() {
 		ID:    "C20",
 		Level: "model_checking",
 		Rule: "(a) input catalogue, bounded-exhaustive: for every RPC / endpoint a valid base request and every single and pairwise perturbation of a finite catalogue (fields dropped / empty / negative / huge / wrong type, oneofs unset, unknown names and ids, malformed URLs, every truncation point of JSON, multipart and batch bodies, bad ranges / content types / boundaries, gzip flags on non-gzip data, stream Send failures), each run as a one-thread controlled execution so that a lock left held or unlocked twice is seen as deadlock / panic; " +
-			"(b) request mixes: every unordered pair (selected triples) of admin and data requests on one table / one bucket under the controlled scheduler, preemption-bounded, built with the race detector and a hand-off that creates no happens-before edge, so that every explored schedule is judged by the program's own synchronisation; violation = panic, deadlock, fatal runtime error, malformed response, batch part differing from the stand-alone request, lost bystander data, or a race report",
+			"(b) request mixes: every unordered pair (selected triples) of admin and data requests on one table / one bucket under the controlled scheduler, preemption-bounded, built with the race detector and a hand-off that creates no happens-before edge, so that every explored schedule is judged by the program's own synchronisation; violation = panic, deadlock, fatal runtime error, malformed response, batch part differing from the stand-alone request, lost bystander data, or a race report; " +
+			"(c) admin/data mixes on the table registry (create / delete / re-create a table, schema changes, clears racing writes and reads): every interleaving within the preemption bound, the recorded history plus closing observations (ListTables, GetTable, full reads) must be linearizable against the reference model - data acknowledged before or during the mix is intact afterwards",
 		Assumptions: []string{"the race detector reports each distinct race once per worker process (first schedule that exhibits it)", "responses from the transport-level gzip wrapper may be plain text; API-level errors must carry a JSON error body"},
 		Run:         runC20,
 		Replay:      replayC20,
@@ -41,6 +42,21 @@ func replayC20(c *fw.Ctx, raw json.RawMessage) (string, string) {
 		var cs schedCase
 		if err := json.Unmarshal(raw, &cs); err != nil {
 			return "bad-replay", err.Error()
+		}
+		var eng struct {
+			Engine string `json:"engine"`
+		}
+		if json.Unmarshal(cs.Param, &eng); eng.Engine != "" {
+			// a linearizability scenario of the admin/data mixes (c20lin.go)
+			var lp c06Param
+			if err := json.Unmarshal(cs.Param, &lp); err != nil {
+				return "bad-replay", err.Error()
+			}
+			_, class, detail, _ := runSchedOnce(c06Scenario(c, lp), cs.Choices)
+			if class == "" {
+				return "", ""
+			}
+			return fmt.Sprintf("C20:%s:%s", cs.Scenario, class), detail
 		}
 		var p c20Param
 		if err := json.Unmarshal(cs.Param, &p); err != nil {
@@ -67,6 +83,7 @@ func runC20(c *fw.Ctx) {
 		if c.Shard < c20InputShards {
 			c.Sub(c.Shard, c20InputShards)
 			runC20Inputs(c, &item)
+			runC20Lin(c, &item)
 		} else {
 			c.Sub(c.Shard-c20InputShards, 16-c20InputShards)
 			runC20Race(c, &item)
@@ -74,5 +91,6 @@ func runC20(c *fw.Ctx) {
 		return
 	}
 	runC20Inputs(c, &item)
+	runC20Lin(c, &item)
 	runC20Race(c, &item)
 }
